@@ -590,6 +590,16 @@ def gen_history(rng, flavour, nsteps, p_remove=0.12):
                     pool = free if (len(free) >= 2 and rng.random() < 0.8) else cps
                     k = rng.choice([2, 2, 2, 3, 3, 4, 1])
                     sel = rng.sample(pool, min(k, len(pool)))
+                    subs = [i for i in cps if v.typ(i) == 'SubInterface']
+                    if subs and rng.random() < 0.35:
+                        # a plain link on a SUB-INTERFACE (mostly a free one), its other end(s) ports or sub-interfaces of
+                        # other families: removing the port's owner must take this link along with the sub-interface
+                        fs = [i for i in subs if not v.links_of(i)]
+                        x = rng.choice(fs if fs and rng.random() < 0.8 else subs)
+                        fam = tuple(v.parent_cp(x))
+                        others = [i for i in pool if i != x and (tuple(v.parent_cp(i)) or (i,)) != fam and (i,) != fam]
+                        if others:
+                            sel = [x] + rng.sample(others, min(max(k - 1, 1), len(others)))
                     if rng.random() < 0.9:       # mostly: at most one end per port family (port + its sub-interfaces)
                         seen, keep = set(), []
                         for i in sel:
